@@ -71,8 +71,11 @@ def ledger_check(ctx, pid, cfg, selftest_mutator, what):
     l2, s2 = run_scenarios(ctx, [x + 300 for x in seeds[:max(2, len(seeds) // 3)]], blocks, extra=VRF)
     # ... and with a minimum balance an account must keep to transact (fee covered, minimum not: rejected before any effect)
     l3, s3 = run_scenarios(ctx, [x + 600 for x in seeds[:max(2, len(seeds) // 3)]], blocks, extra=["-mintransact", "3"])
-    lines += l2 + l3
-    sums += s2 + s3
+    # ... debonding intervals 0 (an entry is due at the very next transition) and 2, tiny stakes (slashes larger than the escrow)
+    l4, s4 = run_scenarios(ctx, [x + 700 for x in seeds[:max(2, len(seeds) // 3)]], blocks, extra=["-debond", "0"])
+    l5, s5 = run_scenarios(ctx, [x + 800 for x in seeds[:max(2, len(seeds) // 3)]], blocks, extra=["-debond", "2", "-tinystake", "-validators", "5"])
+    lines += l2 + l3 + l4 + l5
+    sums += s2 + s3 + s4 + s5
     t = totals(sums)
     ctx.log("scenarios: %d seeds (%d on the VRF beacon), %d blocks, %d events" % (len(sums), len(s2), t["blocks"], t["events"]))
     rej, nv, nev = validate(ctx, lines, "TraceLedger", cfg)
